@@ -74,7 +74,7 @@ _EVAL_TRUSTED = _OPS_TRUSTED + [
     'compute_attractor_states (driver of the foreign ITGR + Xie-Beerel algorithms of biodivine-algo-bdd-scc): ASSUMED to return, inside the given universe, exactly the states satisfying !{x}: AG EF {x}',
     'get_canonical_and_renaming is PROVED (unit canon) to return the result of the scanner specification `scan` (spec/canon.rs); the two facts about canonical forms of wild-card propositions (K1a / K1b) are proved from it; TRUSTED: decimal rendering of i32 by format! is an uninterpreted function dec_digits_int, names of network variables contain none of ( ) { } % (axiom_prop_names); termination of the exec recursion of canonize_subform is not proved',
     'prelude/std_model.rs: String keys obey the hash-map key model, a String / BTreeMap is determined by its contents, a &str key denotes the String with the same characters, HashMap::get_mut; R-mapindex (map[&k] = *map.get(&k).unwrap()), R-refiter (for x in &m = for x in m.iter()), R-tupleclone, R-tostr (Display of HctlTreeNode prints formula_str)',
-    'cache soundness (C04) is proved modulo (a) the ASSUMED semantic soundness of canonical keys axiom_key_sound (= the only-if direction of C09), (b) the contract of mark_duplicates (keys of formulae with at most one variable name, counters >= 1) PROVED in unit mark over a model of BinaryHeap as a bag whose pop returns some element (prelude/std_model.rs) and with the Ord / PartialEq impls of NodeWithDomains as trusted stand-ins (only the order of traversal depends on them), batches with fewer than 2^31 nodes, (c) wild-card counters that cover the occurrences still to be evaluated (budget_pre), and (d) the two KNOWN FINDINGS D5 / D8 (known_findings.json): the assertions hit_universe_ok / hit_slot_ok in the cache-hit path are false for the current repository code',
+    'cache soundness (C04) is proved modulo (a) the ASSUMED semantic soundness of canonical keys axiom_key_sound_core (= the only-if direction of C09; its wild-card clause is proved, lemma_key_wild), (b) the contract of mark_duplicates (keys of formulae with at most one variable name, counters >= 1) PROVED in unit mark over a model of BinaryHeap as a bag whose pop returns some element (prelude/std_model.rs) and with the Ord / PartialEq impls of NodeWithDomains as trusted stand-ins (only the order of traversal depends on them), batches with fewer than 2^31 nodes, (c) wild-card counters that cover the occurrences still to be evaluated (budget_pre), and (d) the two KNOWN FINDINGS D5 / D8 (known_findings.json): the assertions hit_universe_ok / hit_slot_ok in the cache-hit path are false for the current repository code',
     'names: HCTL variable names have a slot in the graph (byte length - 1 < number of extra variable sets), nested quantifiers use distinct slots (preprocessing names them x, xx, ... by depth), propositions are network variables, domain sets do not depend on the auxiliary variables, context sets lie inside the unit set',
 ]
 _EVAL_ASSUME = ['the graph handed to the evaluator carries its BooleanNetwork (as_network() is Some) and its unit set satisfies the regulation constraints and does not constrain state or auxiliary variables (graphs built by get_extended_symbolic_graph)']
